@@ -256,13 +256,21 @@ func linStep(state, input, output interface{}) (bool, interface{}) {
 			}
 			return out == "i:0", put(val)
 		case "ZADDGT", "ZADDLT":
+			// the embedded ZAddGT / ZAddLT only update (reply: 1 when updated); the command follows Redis since the repair
+			// of A-48: GT / LT do not prevent adding, and the reply counts added members only
 			if at < 0 {
-				return out == "i:0", st
+				if in.api {
+					return out == "i:0", st
+				}
+				return out == "i:1", put(val)
 			}
 			o, _ := ival(vals[at])
 			v, _ := ival(val)
 			if (in.op == "ZADDGT" && v > o) || (in.op == "ZADDLT" && v < o) {
-				return out == "i:1", put(val)
+				if in.api {
+					return out == "i:1", put(val)
+				}
+				return out == "i:0", put(val)
 			}
 			return out == "i:0", st
 		case "ZINCRBY":
@@ -528,8 +536,8 @@ func linHistory(n *nodis.Nodis, r *rand.Rand, rounds int, addr string) string {
 					// over the network protocol one command can carry several fields / members: it is one write
 					if kind == "h" {
 						pool = append(append([]string{}, pool...), "HSET2", "HSET2", "HLEN")
-					} else if kind == "z" && os.Getenv("VERIF_LIN_ZADD2") != "" {
-						// (off by default until the multi-member ZADD is one transaction: see known finding A-52)
+					} else if kind == "z" {
+						// (one transaction since the repair of A-52: handler zAdd -> zAddPairs)
 						pool = append(append([]string{}, pool...), "ZADD2", "ZADD2", "ZCARD")
 					}
 				}
